@@ -918,6 +918,9 @@ func (e *Engine) verifyFunction(key string, extra *FuncSpec) (res *FuncResult) {
 		}
 		for _, r := range spec.Requires {
 			r := r
+			if e.onlySafe && r.Label != "" && !strings.HasPrefix(r.Label, "safe") {
+				continue
+			}
 			t := fx.hyp(func() T { return fr0.evalExprIn(r.E, pre, pre, lets).asBool() })
 			fx.assumes = append(fx.assumes, t)
 		}
